@@ -249,24 +249,32 @@ def _simp(p):
         yield q
     for i, st in enumerate(p["main"]):
         if st["op"] in ("arrive", "unget"):
-            data = bytes.fromhex(st["data"])
-            if len(data) > 1:
-                for cand in (data[:len(data) // 2], data[len(data) // 2:], data[:-1], data[1:]):
-                    q = planmod.clone(p)
-                    q["main"][i]["data"] = cand.hex()
-                    yield q
+            for cand in _shorter(bytes.fromhex(st["data"])):
+                q = planmod.clone(p)
+                q["main"][i]["data"] = cand.hex()
+                yield q
         if st["op"] == "send" and st["timeout"] not in (0, None):
             q = planmod.clone(p)
             q["main"][i]["timeout"] = 0
             yield q
     for i, e in enumerate(p["env"]):
-        if e["kind"] == "arrive":
-            data = bytes.fromhex(e["data"])
-            if len(data) > 1:
-                for cand in (data[:len(data) // 2], data[len(data) // 2:], data[:-1], data[1:]):
-                    q = planmod.clone(p)
-                    q["env"][i]["data"] = cand.hex()
-                    yield q
+        if e["kind"] == "arrive" and not e.get("split"):
+            for cand in _shorter(bytes.fromhex(e["data"])):
+                q = planmod.clone(p)
+                q["env"][i]["data"] = cand.hex()
+                yield q
+
+
+def _shorter(data):
+    """shorter arrivals that still consist of whole keypresses"""
+    lens = _key_lengths(data)
+    if len(lens) < 2:
+        return []
+    cuts = [0]
+    for n in lens:
+        cuts.append(cuts[-1] + n)
+    mid = cuts[len(lens) // 2]
+    return [data[:mid], data[mid:], data[:cuts[-2]], data[cuts[1]:]]
 
 
 SIMPLIFIERS = (_simp,)
@@ -818,7 +826,7 @@ def _execute(p, s, res):
                 if not pending:
                     break
                 rounds += 1
-                if rounds > 3000:
+                if rounds > 4000 + 4 * M.arrived_total:
                     _violate(res, "drain_did_not_finish", -1, {"queued": len(M.q_events), "threadsafe": len(M.ts_completed),
                                                                "scheduled": len(M.sched), "tty": len(s.tty.inq),
                                                                "buffered": len(M.entered) - M.pos})
